@@ -1,8 +1,8 @@
 (** Correspondence oracle for C05 / C18: case types, replay of the observed
     request/answer log on the model, and the decidable property checks evaluated on
     the implementation's observations, and (at the end) the lemma tying the checks to
-    the model: whenever the model reproduces an observation outside the known-finding
-    classes, the property check accepts it. *)
+    the model: whenever the model reproduces an observation
+    the property check accepts it. *)
 From GH Require Import Base.Prelude Model.Verify Model.Session Proofs.VerifyP Proofs.SessionP.
 
 (** one request as the answering peer saw it (arrival order), with the frames it answered *)
@@ -70,7 +70,7 @@ Definition model_obs (wd : bool) (s : sess) : option obs :=
   | Some (ROk l) => Some (OOk l)
   | Some (RErr ERangeMixUp) => Some ORangeMixUp
   | Some (RErr ECtx) => Some OCtx
-  | Some (RErr EClosed) => Some OOther
+  | Some (RErr EClosed) | Some (RErr ENotChain) => Some OOther
   | Some RPanic => Some OPanic
   | Some RFuel => None
   | None =>
@@ -113,11 +113,11 @@ Definition nows_log (l : list logev) : list Z := map l_now l.
 Definition verified_b (drift : Z) (tv : hdr -> hdr -> tvres) (nows : list Z) (t u : hdr) : bool :=
   existsb (fun now => match Verify now drift tv t u with None => true | Some _ => false end) nows.
 
-(** each header passed Verify against [from] itself or against the header returned before it *)
-Fixpoint linked_b (V : hdr -> hdr -> bool) (from prev : hdr) (l : list hdr) : bool :=
+(** one Verify chain: each header passed Verify against the one before it, the first against [from] *)
+Fixpoint chain_b (V : hdr -> hdr -> bool) (prev : hdr) (l : list hdr) : bool :=
   match l with
   | [] => true
-  | u :: r => (V from u || V prev u) && linked_b V from u r
+  | u :: r => V prev u && chain_b V u r
   end.
 
 Definition degenerate (c : case05) : bool := k_to c <=? h_height (k_from c) + 1.
@@ -129,48 +129,27 @@ Definition shape_ok (c : case05) (res : list hdr) : bool :=
   && list_eqb N.eqb (map h_height res) (seqN (hf + 1) (length res))
   && (hf + 1 + N.of_nat (length res) <=? k_to c)
   && forallb (fun h => existsb (hdr_eqb h) (sent_log (k_log c)) && h_ok h) res
-  && linked_b (verified_b (k_drift c) tv (nows_log (k_log c))) (k_from c) (k_from c) res.
+  && chain_b (verified_b (k_drift c) tv (nows_log (k_log c))) (k_from c) res.
 
-(** the strict reading of "passed Verify starting from from": one Verify chain
-    from -> res[0] -> res[1] -> ..., every header against the one returned before it *)
-Fixpoint chain_b (V : hdr -> hdr -> bool) (prev : hdr) (l : list hdr) : bool :=
-  match l with
-  | [] => true
-  | u :: r => V prev u && chain_b V u r
-  end.
-
-Definition chained_ok (c : case05) (res : list hdr) : bool :=
-  chain_b (verified_b (k_drift c) (vhdr_tv (k_trust c)) (nows_log (k_log c))) (k_from c) res.
+(** a range longer than the largest slice: the caller's own absurd request, outside the property *)
+Definition beyond_slices (c : case05) : bool :=
+  negb (degenerate c) && (k_maxcap c <? k_to c - (h_height (k_from c) + 1)).
 
 Definition ok05 (c : case05) : bool :=
   match k_obs c with
-  | OOk res => negb (degenerate c) && shape_ok c res && chained_ok c res
+  | OOk res => negb (degenerate c) && shape_ok c res
   | ORangeMixUp | OOther => true          (* an error, returned without waiting *)
   | OCtx => negb (degenerate c)           (* a degenerate request must not hang until the deadline *)
-  | OPanic => false
+  | OPanic => beyond_slices c             (* no peer answer may crash the client *)
   end.
-
-(** known-finding classes (narrow):
-    1 = [from] at height 2^64-1 (from.Height()+1 wraps to 0, the degenerate test is bypassed);
-    2 = a non-degenerate range longer than the largest slice capacity (makeslice panics);
-    3 = the returned range has every property of [shape_ok] (each header verified against
-        [from] or its predecessor) but is not one Verify chain: some first header of an answer
-        chunk does not verify against the last header of the previous chunk *)
-Definition class05 (c : case05) : N :=
-  if h_height (k_from c) + 1 =? two64 then 1
-  else if negb (degenerate c) && (k_maxcap c <? k_to c - (h_height (k_from c) + 1)) then 2
-  else match k_obs c with
-       | OOk res => if shape_ok c res && negb (chained_ok c res) then 3 else 0
-       | _ => 0
-       end.
 
 (** the inputs are uint64 values, [from] is a header, the chunk size passed ClientParameters.Validate *)
 Definition wf05 (c : case05) : bool :=
   negb (h_nil (k_from c)) && (h_height (k_from c) <? two64) && (k_to c <? two64) && (1 <=? k_per c).
 
-Definition chk05 (c : case05) : bool * bool * N := (wf05 c && agree05 c, ok05 c, class05 c).
+Definition chk05 (c : case05) : bool * bool * N := (wf05 c && agree05 c, ok05 c, 0).
 
-(** ** the oracle accepts whatever the model produces (outside the known-finding classes) *)
+(** ** the oracle accepts whatever the model produces *)
 
 Lemma list_eqb_eq {A} (eqb : A -> A -> bool) :
   (forall a b, eqb a b = true -> a = b) -> forall l1 l2, list_eqb eqb l1 l2 = true -> l1 = l2.
@@ -212,29 +191,20 @@ Proof.
   rewrite Hv. reflexivity.
 Qed.
 
-Lemma linked_b_complete (W : hdr -> hdr -> Prop) (Wb : hdr -> hdr -> bool) from :
+Lemma chain_b_complete (W : hdr -> hdr -> Prop) (Wb : hdr -> hdr -> bool) :
   (forall t u, W t u -> Wb t u = true) ->
-  forall l prev, linked W from prev l -> linked_b Wb from prev l = true.
+  forall l prev, chain W prev l -> chain_b Wb prev l = true.
 Proof.
-  intros HW. induction l as [|u l IH]; intros prev; cbn [linked linked_b]; [reflexivity|].
-  intros ([H|H] & Hl); apply HW in H; rewrite H, ?orb_true_r; cbn; apply IH, Hl.
+  intros HW. induction l as [|u l IH]; intros prev; cbn [chain chain_b]; [reflexivity|].
+  intros [H Hl]. rewrite (HW _ _ H). cbn. apply IH, Hl.
 Qed.
 
-Theorem chk05_sound : forall c,
-  wf05 c && agree05 c = true -> class05 c = 0 -> ok05 c = true.
+Theorem chk05_sound : forall c, wf05 c && agree05 c = true -> ok05 c = true.
 Proof.
-  intros c Hwa Hclass. apply andb_prop in Hwa as [Hwf Hagree].
+  intros c Hwa. apply andb_prop in Hwa as [Hwf Hagree].
   unfold wf05 in Hwf.
   apply andb_prop in Hwf as [Hwf Hper]. apply andb_prop in Hwf as [Hwf Ht]. apply andb_prop in Hwf as [Hwf Hf].
   apply negb_true_iff in Hwf. apply N.ltb_lt in Hf, Ht. apply N.leb_le in Hper.
-  (* class 0 *)
-  unfold class05 in Hclass.
-  destruct (N.eqb_spec (h_height (k_from c) + 1) two64) as [|Hne]; [discriminate|].
-  assert (Hclass2 : negb (degenerate c) && (k_maxcap c <? k_to c - (h_height (k_from c) + 1)) = false).
-  { destruct (negb (degenerate c) && (k_maxcap c <? k_to c - (h_height (k_from c) + 1))); [discriminate | reflexivity]. }
-  rewrite Hclass2 in Hclass.
-  assert (Hf1 : h_height (k_from c) + 1 < two64) by lia.
-  (* the model run *)
   unfold agree05, model05 in Hagree.
   destruct (replay _ _ _ _ _ _) as [s consistent] eqn:Hrep.
   destruct consistent; [|discriminate].
@@ -251,14 +221,11 @@ Proof.
     unfold model_obs in Hmo. destruct (s_res s) as [[l|[]| |]|] eqn:Hres; try discriminate.
     2:{ destruct (s_flight s); [destruct (s_queue s), (s_idle s)|]; destruct (watchdog_hit (k_log c)); discriminate. }
     injection Hmo as ->. symmetry in Hout.
-    destruct (result_shape _ _ _ _ _ _ _ _ _ Hwf Hf1 Ht Hper Hout) as (Hlt & Hne' & Hh & Hall & Hlink).
+    destruct (result_shape _ _ _ _ _ _ _ _ _ Hwf Hf Ht Hper Hout) as (Hlt & Hne' & Hh & Hall & Hlink).
     assert (Hlen : length res = N.to_nat (k_to c - (h_height (k_from c) + 1))).
     { rewrite <- (map_length h_height res), Hh. apply seqN_length. }
-    assert (Hshape : shape_ok c res = true); [|
-      rewrite Hshape in Hclass |- *; cbn [andb] in Hclass;
-      destruct (chained_ok c res); [|discriminate Hclass];
-      rewrite !andb_true_r; unfold degenerate; apply negb_true_iff; apply N.leb_gt; exact Hlt].
-    clear Hclass.
+    apply andb_true_intro. split.
+    { unfold degenerate. apply negb_true_iff, N.leb_gt. exact Hlt. }
     unfold shape_ok. repeat (apply andb_true_intro; split).
     + destruct res; [contradiction | reflexivity].
     + rewrite Hh, Hlen. apply list_eqb_refl, N.eqb_refl.
@@ -266,28 +233,26 @@ Proof.
     + apply forallb_forall. intros h Hin. destruct (Hall h Hin) as (_ & Hok & Hsent).
       rewrite Hok, andb_true_r. apply existsb_exists. exists h. split; [|apply hdr_eqb_refl].
       rewrite <- log_events_hdrs. exact Hsent.
-    + eapply linked_b_complete; [|exact Hlink].
+    + eapply chain_b_complete; [|exact Hlink].
       intros t u Hv. apply verified_b_complete. unfold verified_during in Hv.
       rewrite log_events_nows in Hv. exact Hv.
   - (* the context ended: not for a degenerate request *)
     apply negb_true_iff. unfold degenerate. apply N.leb_gt.
     destruct (N.le_gt_cases (k_to c) (h_height (k_from c) + 1)) as [Hdeg|]; [exfalso | assumption].
     pose proof (degenerate_is_error (k_drift c) tv (k_maxcap c) (k_per c) (k_from c) (k_to c) (k_peers c)
-                                    (log_events (k_log c)) Hf1 Hdeg) as Herr.
+                                    (log_events (k_log c)) Hf Hdeg) as Herr.
     rewrite <- Hout in Herr. unfold model_obs in Hmo. rewrite Herr in Hmo. injection Hmo as <-. discriminate.
-  - (* a panic: impossible outside class 2 *)
-    exfalso. destruct o; try discriminate.
+  - (* a panic: only for a range beyond the largest slice *)
+    destruct o; try discriminate.
     unfold model_obs in Hmo. destruct (s_res s) as [[l|[]| |]|] eqn:Hres; try discriminate.
     2:{ destruct (s_flight s); [destruct (s_queue s), (s_idle s)|]; destruct (watchdog_hit (k_log c)); discriminate. }
-    symmetry in Hout.
-    destruct (N.le_gt_cases (k_to c) (h_height (k_from c) + 1)) as [Hdeg|Hnd].
-    + rewrite (degenerate_is_error _ _ _ _ _ _ _ _ Hf1 Hdeg) in Hout. discriminate.
-    + assert (Hdg : degenerate c = false) by (unfold degenerate; apply N.leb_gt; exact Hnd).
-      rewrite Hdg in Hclass2. cbn [negb andb] in Hclass2.
-      destruct (N.ltb_spec (k_maxcap c) (k_to c - (h_height (k_from c) + 1))) as [|Hcap]; [discriminate|].
+    symmetry in Hout. unfold beyond_slices, degenerate.
+    destruct (N.leb_spec (k_to c) (h_height (k_from c) + 1)) as [Hdeg|Hnd].
+    + rewrite (degenerate_is_error _ _ _ _ _ _ _ _ Hf Hdeg) in Hout. discriminate.
+    + cbn [negb andb]. apply N.ltb_lt.
+      destruct (N.le_gt_cases (k_to c - (h_height (k_from c) + 1)) (k_maxcap c)) as [Hcap|Hcap]; [exfalso | exact Hcap].
       destruct (no_response_crashes (k_drift c) tv (k_maxcap c) (k_per c) (k_from c) (k_to c) (k_peers c)
-                                    (log_events (k_log c)) Hwf Hf Ht Hper) as [Hp _].
-      { rewrite (wrap64_small _ Hf1). exact Hcap. }
+                                    (log_events (k_log c)) Hwf Hf Ht Hper Hcap) as [Hp _].
       exact (Hp Hout).
 Qed.
 
@@ -452,13 +417,18 @@ Proof.
     rewrite (exact_range _ _ _ _ _ _ _ c top evs l Hwf Hf1 Ht Hper Hch Hhon Hout).
     apply list_eqb_refl, hdr_eqb_refl.
   - exfalso. symmetry in Hout.
-    destruct (errors_have_a_cause _ _ _ _ _ _ _ _ _ Hf Ht Hper Hout) as [(_ & Hd)|[(_ & Hx)|(_ & Hx)]].
-    + rewrite (wrap64_small _ Hf1) in Hd. lia.
+    destruct (errors_have_a_cause _ _ _ _ _ _ _ _ _ Hf Ht Hper Hout) as [(_ & Hd)|[(_ & Hx)|[(_ & Hx)|(-> & _)]]].
+    + lia.
     + exact (proj1 Hnoctx Hx).
     + exact (proj2 Hnoctx Hx).
+    + apply (honest_no_chain_error (k_drift b) tv (k_maxcap b) (k_per b) (k_from b) (k_to b) (k_peers b) c top evs
+                                   Hwf Hf1 Ht Hper Hch Hhon); [|exact Hout].
+      intros p0 now0 fs0 Hev. apply log_events_kinds in Hev as (e0 & He0 & [Hd0|Hr0]); [discriminate|].
+      injection Hr0 as -> -> ->. apply chain_verifies_b_sound. rewrite forallb_forall in Hver. apply Hver.
+      apply nodup_In. unfold nows_log. apply in_map, He0.
   - exfalso. symmetry in Hout.
     destruct (no_response_crashes (k_drift b) tv (k_maxcap b) (k_per b) (k_from b) (k_to b) (k_peers b) evs Hwf Hf Ht Hper) as [Hp _].
-    { rewrite (wrap64_small _ Hf1). exact Hcap. }
+    { exact Hcap. }
     exact (Hp Hout).
   - discriminate.
   - (* still waiting, quiescent: impossible with the reliable peer *)
